@@ -141,7 +141,7 @@ PROPS = {
         "kx": [],
         "technique": "Verus sink preconditions on the extracted Repository::clean / Storage::clean: Reference::delete requires a non-protected namespace, Repository::remove requires that the local node has no signed refs; loop invariants over the remote and reference loops",
         "explanation": "Repository::clean (both loops, with `continue`) is verified: every reference deleted lies in a namespace that is neither the local key nor a delegate key, and every id reported deleted is unprotected. Storage::clean calls Repository::remove only when SignedRefsAt::load found no signed refs for the local key, and otherwise only Repository::clean.",
-        "not_decided": "Assumed: references_glob(refs/namespaces/<id>/*) yields only refs of namespace <id>; find_reference returns the named ref; the map/collect chain building the delegate key set yields exactly the delegates; derive(Ord/PartialEq) on the key type is lawful. libgit2 itself is not verified.",
+        "not_decided": "Assumed: references_glob(refs/namespaces/<id>/*) yields only refs of namespace <id>; find_reference returns the named ref; the map/collect chain building the delegate key set yields exactly the delegates (a lookup by `binary_search` over the mapped, unsorted list is declared with the contract 'Ok names a present element' only, so such a lookup is reported; a variant that sorts first would need that contract extended); derive(Ord/PartialEq) on the key type is lawful. libgit2 itself is not verified.",
     },
     "C10": {
         "vx": ["service_gossip", "service_relay"],
